@@ -148,6 +148,31 @@ def mutate_free(rng, t):
     return t.replace("    ", "", rng.randint(1, 5)).replace("\n", "", rng.randint(1, 4))
 
 
+def string_literals(rng, n):
+    """RON string literal texts: plain characters and escapes of every kind, valid and invalid; never raw strings, `\\x` escapes of 0x80 and above or
+    comments (not modelled)"""
+    plain = list("abcXYZ019 .-_+/!#{}()[],:'") + ["é", "ß", "日", "😀", "\u0301", "\u200b", "\u00a0", "\ufeff", "\t", "\n", "\r"]
+    good = ['\\"', "\\\\", "\\'", "\\n", "\\r", "\\t", "\\0", "\\x41", "\\x7f", "\\x00", "\\x0A", "\\x7F", "\\u{41}", "\\u{0}", "\\u{7f}", "\\u{e9}", "\\u{E9}", "\\u{00e9}", "\\u{301}",
+            "\\u{200b}", "\\u{2028}", "\\u{feff}", "\\u{1F600}", "\\u{1f600}", "\\u{10ffff}", "\\u{10FFFF}", "\\u{d7ff}", "\\u{e000}", "\\u{000041}", "\\u{22}", "\\u{5c}"]
+    bad = ["\\q", "\\ ", "\\u{}", "\\u{d800}", "\\u{dfff}", "\\u{110000}", "\\u{ffffff}", "\\u{1234567}", "\\u{0000041}", "\\u{12", "\\u41", "\\u{g}", "\\u{4 1}", "\\x4", "\\xg1", "\\x4g", "\\N", "\\U{41}", "\\X41",
+           "\\u{-1}", "\\u{+41}", "\\u{４１}", "\\", "\\1", "\\a", "\\e", "\\b", "\\f", "\\v"]
+    tails = ["", "", "", "", " ", "\n", "\t\r\n ", "\u0085", "\u200e\u200f", "\u2028\u2029", "\x0b\x0c", "x", '"', '""', " x", "\u00a0", "\u200b", ",", ")", "\\"]
+    heads = ["", "", "", "", " ", "\n\t"]
+    out = []
+    for _ in range(n):
+        k = rng.choice([0, 1, 2, 3, 5, 8, 20])
+        r = rng.random()
+        body = "".join(rng.choice(plain) if rng.random() < 0.5 else rng.choice(good) if (r < 0.7 or rng.random() < 0.8) else rng.choice(bad) for _ in range(k))
+        if rng.random() < 0.1:                      # random code point escapes, all lengths, both cases, leading zeros
+            cp = rng.choice([rng.randrange(0, 0x80), rng.randrange(0x80, 0x800), rng.randrange(0x800, 0x10000), rng.randrange(0x10000, 0x110000), rng.randrange(0xD800, 0xE000), rng.randrange(0x110000, 0x1000000)])
+            h = ("%x" if rng.random() < 0.5 else "%X") % cp
+            h = "0" * rng.choice([0, 0, 1, 2, 3]) + h
+            body += "\\u{" + h + "}"
+        lit = rng.choice(heads) + '"' + body + ('"' if rng.random() < 0.95 else "") + rng.choice(tails)
+        out.append(lit)
+    return out
+
+
 def run_check(tier, seed):
     run = Run(PID, tier, seed)
     rng = random.Random(seed * 1000003 + 12)
@@ -163,6 +188,11 @@ def run_check(tier, seed):
     sch = systematic_schemas() + [zgen.rand_schema(rng, valid=rng.random() < 0.4) for _ in range(600 if q else 20000)]
     cases = ["RONV " + zgen.enc_zerv(s, zgen.rand_vars(rng)) for s in sch]
     correspond(run, "schema_refusal", cases, nontrivial=lambda c, r: r == "REJECT", describe=lambda c: {"object": c[:2000]})
+
+    # ---- stream 2b: the READER of string literals (ron's parse_escape with the options zerv reads documents with) against the model's state machine
+    # (Model/RonRead.v; theorem c12_string_values_survive: what the writer prints is read back) - valid and invalid escapes of every kind
+    cases = ["RONSTR " + hx(t) for t in string_literals(rng, 4000 if q else 150000)]
+    correspond(run, "string_literals_read", cases, nontrivial=lambda c, r: r.startswith("OK") and len(r) > 3, describe=lambda c: {"literal": unhx(c.split(" ")[1])[:300]})
 
     # ---- stream 3: emitted objects of the pipelines: pipe equality through the binary
     n = 400 if q else 12000
